@@ -15,7 +15,7 @@ CHECKS = {
         "(randperm returns a permutation of length n) are premises, checked on every generated case; the Python harness and its abstraction to Base.obs.",
    technique="Coq proof over hand-written Gallina model + lockstep correspondence (vm_compute) + direct oracle"),
 }
-PENDING = {}
+PENDING = {"C09": "check not built yet; designed in DESIGN.md section 4 C09 (fault transitions of the SDL model + real SIGKILL at enumerated crash points) and scheduled next"}
 CHECKS["C07"] = dict(
    text="Executable Gallina model of incremental_state.py (flatten / unflatten / generate_delta / apply_delta / _IncrementalWorkerState incl. None handling, "
         "tombstones, the empty-dict-is-a-leaf rule) with machine-checked theorems about it (Properties_C07.v). Tied to the code on every run by lockstep "
@@ -38,9 +38,10 @@ CHECKS["C02"] = dict(
 CHECKS["C04"] = dict(
    text="Same Gallina node model; theorems in Properties_C04.v relate running a node (reset, next until StopIteration, any number of epochs) to the list-function reference "
         "semantics sem (map f, chunking with drop_last, concat, filter, identity). Correspondence: three epochs of random pipelines compared with the model and with an independent "
-        "Python list reference; concurrency runs (thread and process workers, in_order true/false, max_concurrent, prebatch, randomised per-item delays) checked against the list reference.",
+        "Python list reference; concurrency runs (thread and process workers, in_order true/false, max_concurrent, prebatch, randomised per-item delays) checked against the list reference; "
+        "scheduler-driven runs of the real threads replayed step by step on the interleaving model ConcModel.v (in_order and unordered).",
    design="DESIGN.md 4 C04",
-   note="Trusted: Coq kernel + vm_compute; interleavings of the real threads are sampled by delay jitter in this check (the interleaving-level model and scheduler are part of the C06/C12 machinery); harness user code.",
+   note="Trusted: Coq kernel + vm_compute; deterministic thread scheduler (harness/sched_threads.py) for the interleaving-level cases, delay jitter for the process-worker cases; harness user code. The theorem that every interleaving refines the sequential semantics is not yet proved for the concurrent model (the sequential theorems are); it is checked by lockstep correspondence.",
    technique="Coq proof over hand-written Gallina model + lockstep correspondence (vm_compute) + direct oracle")
 CHECKS["C13"] = dict(
    text="Loader front-end (flag machine _it/_iter_for_state_dict/_next_iter_state_dict, LoaderIterator look-ahead) inside the Gallina node model; theorems in Properties_C13.v. "
@@ -108,6 +109,48 @@ CHECKS["C16"] = dict(
    design="DESIGN.md 4 C16",
    note="Trusted: Coq kernel; that __del__ of the half-built iterator runs when the exception unwinds is CPython behaviour (observed by the census, not modelled) - partial in that sense.",
    technique="Coq proof over hand-written Gallina model + exhaustive pairwise correspondence on real loaders")
+CHECKS["C06"] = dict(
+   text="Interleaving-level Gallina model of the nodes thread protocol (ConcModel.v: _populate_queue, _apply_udf, _sort_worker, _ParallelMapperIter / _SingleThreadedMapper "
+        "__init__/__next__/_shutdown, QueueSnapshotStore, reset() as generations of iterators over one shared source; one model step = one queue/semaphore/event/join/sleep "
+        "primitive; timeouts are schedule choices). Theorems in Properties_C06.v (pop_version discipline proved for every store; the consumer-position invariant is stated in "
+        "full and not yet proved - see the file). Tie to the code: the REAL threads are run under a deterministic scheduler (every primitive a yield point) and the recorded "
+        "schedule is replayed on the model, compared at EVERY step (pending primitive, offered moves, semaphore, queue contents, store versions) and on every outcome; "
+        "oracle: each state_dict() denotes exactly the consumer position and each continuation after a load equals the reference.",
+   design="DESIGN.md 4 C06",
+   note="Trusted: Coq kernel + vm_compute; the cooperative primitives of harness/sched_threads.py (linearizable, GIL-atomic attribute reads); instrumented source whose state is its position; "
+        "schedules in which a join() of an old reader times out belong to C12's known finding D10 and are excluded here; the invariant snap+steps = consumer position is checked by "
+        "correspondence+oracle on every case, its Coq proof is pending (partial).",
+   technique="Coq proof (store discipline) over hand-written interleaving model + step-by-step lockstep correspondence under a deterministic thread scheduler + direct oracle")
+CHECKS["C11"] = dict(
+   text="Same interleaving model. Theorems in Properties_C11.v: every wait is timed (a thread that has not finished always has a move, in ANY state), no reachable state of any schedule "
+        "is a deadlock while the consumer's script is unfinished (the consumer is always inside an operation whose pending primitive is enabled or timed), next() after the stop event is "
+        "immediate. Tie to the code: scheduler-driven lockstep with failing sources / map functions and repeated next() after errors and end of stream; deadlock under the scheduler or "
+        "an exhausted step budget is a hang; process workers SIGKILLed in map_fn or while idle, and real-time runs, under a per-call deadline. Oracle: errors surface at the failing "
+        "position after the preceding items, never a clean StopIteration in their place; every call returns.",
+   design="DESIGN.md 4 C11",
+   note="Trusted: Coq kernel + vm_compute; scheduler primitives; fairness of the random chooser; wall-clock deadlines (20 s per call) for process and real-time cases - partial: the full "
+        "bounded-fair termination theorem for next() is not proved, absence of deadlock is.",
+   technique="Coq proof (no deadlock, timed waits) over hand-written interleaving model + lockstep correspondence under a deterministic thread scheduler + deadline oracle with real SIGKILL")
+CHECKS["C12"] = dict(
+   text="Same interleaving model. Theorems in Properties_C12.v: the semaphore accounting identity permits + in-flight = bound holds for every generation in EVERY reachable state of EVERY "
+        "schedule (timeouts, join timeouts, resets, loads, errors included), hence pulled-but-unreturned items <= prefetch_factor / max_concurrent always; the single-owner clause is stated "
+        "in full and REFUTED for the faithful model by a machine-checked witness schedule recorded from the real threads (join timeout, known finding D10). Tie to the code: lockstep under "
+        "the scheduler incl. join-timeout schedules with an instrumented source counting concurrent entries and read-ahead; real-time runs with fast and 1.3 s sources.",
+   design="DESIGN.md 4 C12",
+   note="Trusted: Coq kernel + vm_compute; scheduler primitives; a thread parked inside source.next() stands for an arbitrarily slow source. Known finding D10 is matched only when a join "
+        "timeout occurred in the schedule (or the real-time source is slower than the joins); any other overlap is a violation. Partial: single ownership under 'join never times out' is checked "
+        "by correspondence+oracle, its Coq proof is pending.",
+   technique="Coq proof (accounting invariant over all schedules; refutation witness) over hand-written interleaving model + lockstep correspondence under a deterministic thread scheduler + instrumented-source oracle")
+CHECKS["C17"] = dict(
+   text="nodes: same interleaving model; theorems in Properties_C17.v: once an iterator's stop event is set, every move of its reader, workers and sorter strictly decreases a natural-number "
+        "potential that no consumer step increases, and a thread that has not exited can always move - so the background threads terminate after boundedly many of their own steps, under every "
+        "schedule. Loader: process-table model SdlProcs.v with theorems for every history (at most two generations alive, nothing alive once unreferenced, exhaustion releases non-persistent "
+        "workers, persistent workers reused). Tie to the code: scheduler-driven lockstep in which, after the consumer's script ends, the remaining threads are run to completion (none may "
+        "survive); real StatefulDataLoader histories with a census of live worker pids after every operation compared with the process-table model; real-time nodes census of threads/children.",
+   design="DESIGN.md 4 C17",
+   note="Trusted: Coq kernel + vm_compute; scheduler primitives; multiprocessing.active_children()/threading.enumerate() as census; CPython refcounting for __del__. Partial: OS reaping, "
+        "join wall-clock (one 5 s join per worker, then terminate(), after a failed start-up) are observed, not modelled.",
+   technique="Coq proof (decreasing potential after stop; process-table invariants) over hand-written models + lockstep correspondence (thread scheduler; pid census) + census oracle")
 props = [json.loads(l) for l in open(os.path.join(V, "properties.jsonl"))]
 checks, na = [], []
 for p in props:
